@@ -1,13 +1,197 @@
 """C02 — concurrent transactions cannot spend the same funds twice."""
+import collections
+import json
 from checks.enginelib import *
+from checks import numlib
 
 META = {
-    "text": 'Lean: component model Floor (locks held from before the balance read until the log is persisted; the store answers balance reads from the persisted log; every committed posting list touches only accounts in the committer\'s lock sets, sources write-locked and read, and respects the C01 floor against the balances read; reads are consumed by a commit and not taken while the request\'s own log is queued). Theorems (Props/C02.lean, over ALL accepted event sequences): inv_reachable (inductive invariant: lock exclusion, producers of queued logs hold covering locks, recorded reads of write-locked accounts equal the replay of durable++pending, floor fact per entry), log_floor / log_floor_durable / log_floor_at (at its log position every entry added during the run respects the floor against the replay of the entries before it), racing_pair_sum_le / racing_pair_not_both (two debits of one bounded account never jointly exceed what the log prefix provides plus the overdraft), locks_span_persistence, producer_holds_locks, lock_exclusion, reads_are_current, commit_respects_floor_now, funding_is_prefix. Tie: every run of the real Commander under the deterministic scheduler must be accepted by the model (trace validation); oracle: fold of the persisted log.',
-    "note": 'Trusted: Lean kernel; the event vocabulary and its extraction from the harness trace; scheduler-native locker implementing the C15 contract; exec_floor per commit is checked on the trace (and proved for Spec under C01), not derived from the VM code.',
-    "technique": 'Lean 4 proof (inductive invariant of the Floor component) + trace validation of the real Commander under a deterministic scheduler + log-replay oracle',
-    "design_ref": '5 (C02), 3.4, appendix B',
+    "text": 'Lean: component model Floor (locks held from before the balance read until the log is persisted; the store answers balance reads from the persisted log; every committed posting list touches only accounts in the committer\'s lock sets, sources write-locked and read, and respects the C01 floor against the balances read; reads are consumed by a commit and not taken while the request\'s own log is queued). Theorems (Props/C02.lean, over ALL accepted event sequences): inv_reachable (inductive invariant: lock exclusion, producers of queued logs hold covering locks, recorded reads of write-locked accounts equal the replay of durable++pending, floor fact per entry), log_floor / log_floor_durable / log_floor_at (at its log position every entry added during the run respects the floor against the replay of the entries before it), racing_pair_sum_le / racing_pair_not_both (two debits of one bounded account never jointly exceed what the log prefix provides plus the overdraft), locks_span_persistence, producer_holds_locks, lock_exclusion, reads_are_current, commit_respects_floor_now, funding_is_prefix. The clause the component assumes of a commit (lock coverage) is proved of the source-level semantics Spec for EVERY script, variable map and store: posting_sources_write_locked (every posting source but world is in lockWrite, whichever way the script names it: literal, variable, variable read from metadata), posting_accounts_locked / posting_accounts_in_lock_sets (destinations in lockRead), write_locks_are_read_locks, world_not_locked, balances_read_are_write_locked (every balance read belongs to a write-locked account, or to a save target which is read-locked), posting_sources_were_read, and spec_commit_passes_lock_guards / spec_commit_accepted (a commit of Spec\'s postings by a request holding Spec\'s lock sets passes the guards of Floor.step). Tie: (1) every run of the real Commander under the deterministic scheduler must be accepted by the model (trace validation); (2) the lock sets and postings Spec computes equal what the real compiler + ResolveResources + VM return, input by input (stream numscript:locksets; generated programs include the aliasing shapes: an account in source position that is also the value of a variable which is no source). Oracles, on the implementation\'s outputs alone: fold of the persisted log (no debit beyond what the log provides); every posting source in the reported write set and every posting account in the reported lock sets.',
+    "note": 'Trusted: Lean kernel; the event vocabulary and its extraction from the harness trace; scheduler-native locker implementing the C15 contract; Spec as the reading of Numscript (tied to compiler+VM by the differential, lock sets included); exec_floor per commit is checked on the trace (and proved for Spec under C01), not derived from the VM code; that commander.exec locks exactly what ResolveResources returns is seen on the trace (lock events vs committed postings), not proved from source.',
+    "technique": 'Lean 4 proof (inductive invariant of the Floor component; lock coverage by induction over the Spec interpreter) + trace validation of the real Commander under a deterministic scheduler + differential of lock sets Spec vs ResolveResources + log-replay and lock-coverage oracles',
+    "design_ref": '5 (C02), 3.4, appendix A, appendix B',
 }
+
+# ---------------------------------------------------------------- lock sets of scripts (area "numscript")
+
+
+def dest_exprs(d):
+    if d["k"] == "acct":
+        yield d["e"]
+    elif d["k"] == "inorder":
+        for c in d["caps"]:
+            if c["kd"]["k"] == "to":
+                yield from dest_exprs(c["kd"]["d"])
+        if d["rest"]["k"] == "to":
+            yield from dest_exprs(d["rest"]["d"])
+    else:
+        for it in d["items"]:
+            if it["kd"]["k"] == "to":
+                yield from dest_exprs(it["kd"]["d"])
+
+
+def key_of(e):
+    return ("@" if e["k"] == "acct" else "$") + str(e.get("v"))
+
+
+def designations(inp):
+    """(sources, others): account-designating expressions of the program, as (key, role) lists;
+    key = '@literal' | '$variable'.  Independent of the Lean model and of the harness' own tag."""
+    src, oth = [], []
+    for st in inp["ast"]["stmts"]:
+        k = st["k"]
+        if k == "send":
+            for s in numlib.send_sources(st):
+                if s["e"]["k"] in ("acct", "var"):
+                    src.append((key_of(s["e"]), "source"))
+            for e in dest_exprs(st["dst"]):
+                if e["k"] in ("acct", "var"):
+                    oth.append((key_of(e), "dest"))
+        elif k in ("saveMon", "saveAll"):
+            if st["acc"]["k"] in ("acct", "var"):
+                oth.append((key_of(st["acc"]), "save"))
+        elif k == "setAccountMeta":
+            if st["acc"]["k"] in ("acct", "var"):
+                oth.append((key_of(st["acc"]), "setmeta"))
+    for d in inp["ast"].get("vars") or []:
+        o = d.get("origin")
+        if o and o["acc"]["k"] in ("acct", "var"):
+            oth.append((key_of(o["acc"]), "origin"))
+        if d["ty"] == "account":
+            oth.append(("$" + d["name"], "declared"))
+    return src, oth
+
+
+def alias_shapes(inp):
+    """which aliasing shapes the input contains, evaluated with the values the variables really take:
+    aliased        some non-world account in source position is ALSO designated by another expression (another name)
+    lower-nonsource … by an account variable that is nowhere a source, while the source is a literal or a variable declared
+                   later — the variable's resource index is the lower one (variables precede literals)
+    +plain/+meta   origin of that variable;  +dest/+save/+setmeta/+declared-only  what the variable is used for"""
+    env, _, acct_of, _ = numlib.resolve_env(inp)
+    decl_order = [d["name"] for d in inp["ast"].get("vars") or []]
+    origin_of = {d["name"]: ("meta" if (d.get("origin") or {}).get("k") == "meta" else "plain") for d in inp["ast"].get("vars") or []}
+
+    def val(key):
+        if key[0] == "@":
+            return key[1:]
+        v = env.get(key[1:])
+        return v[1] if v and v[0] == "acct" else None
+    src, oth = designations(inp)
+    src_keys = {k for k, _ in src}
+    shapes = set()
+    for ks in src_keys:
+        a = val(ks)
+        if a is None or a == "world":
+            continue
+        for ko, role in src + oth:
+            if ko == ks or val(ko) != a:
+                continue
+            shapes.add("aliased")
+            if ko[0] == "$" and ko not in src_keys:
+                lower = ks[0] == "@" or (ks[1:] in decl_order and ko[1:] in decl_order and decl_order.index(ko[1:]) < decl_order.index(ks[1:]))
+                if lower:
+                    shapes.add("lower-nonsource")
+                    shapes.add("lower-nonsource+" + origin_of.get(ko[1:], "?"))
+                    shapes.add("lower-nonsource+" + ("declared-only" if role == "declared" and not any(k2 == ko and r2 != "declared" for k2, r2 in oth) else role))
+            elif ko[0] == "$" or ks[0] == "$":
+                shapes.add("source-by-variable+other-name")
+    shapes.discard("lower-nonsource+declared")
+    return shapes
+
+
+def proj_locks(o):
+    if o is None:
+        return None
+    if "panic" in o:
+        return {"panic": True}
+    if "postings" in o:
+        return {"lockR": o.get("lockR"), "lockW": o.get("lockW"), "postings": o["postings"]}
+    return {"err": o.get("err")}
+
+
+def lock_oracle(out):
+    """on the implementation's output alone: the reported lock sets cover the postings"""
+    v = []
+    if "postings" not in out:
+        return v
+    w, r = set(out.get("lockW") or []), set(out.get("lockR") or [])
+    for n, (src, dst, amt, asset) in enumerate(out["postings"]):
+        if src != "world" and src not in w:
+            v.append(("source-not-write-locked", "posting %d takes %s %s from %s, which is not in the write set %s (read set %s)" % (
+                n, amt, asset, src, sorted(w), sorted(r))))
+        for x in (src, dst):
+            if x != "world" and x not in w and x not in r:
+                v.append(("account-not-locked", "posting %d touches %s, which is in neither lock set (write %s, read %s)" % (n, x, sorted(w), sorted(r))))
+    return v
+
+
+def locksets(ctx, n):
+    """L2: lock sets + postings of Spec vs the real compiler / ResolveResources / VM; L3: coverage oracle on the real output"""
+    r = numlib.run_numscript(ctx, n)
+    if r is None:
+        return 0
+    inputs, impl, model = r
+    compare(ctx, "numscript:locksets", inputs, impl, model, proj_impl=lambda i, o: proj_locks(o), proj_model=lambda i, o: proj_locks(o))
+    shapes, tags, ok_with = collections.Counter(), collections.Counter(), collections.Counter()
+    seen, nontrivial = set(), 0
+    for inp in inputs:
+        out = impl.get(inp["id"], {})
+        for cls, what in lock_oracle(out):
+            ctx.violation({"property": "C02", "class": cls}, what, {"area": "numscript", "input": inp, "observed": out})
+        try:
+            sh = alias_shapes(inp)
+        except Exception:
+            sh = set()
+        for s in sh:
+            shapes[s] += 1
+            if out.get("postings"):
+                ok_with[s] += 1
+        if inp.get("alias"):
+            tags[inp["alias"].split("+")[1].rsplit("-", 1)[0]] += 1
+        h = shash(inp["text"] + canon(inp.get("vars")) + canon(inp.get("ameta")))
+        if h not in seen and any(p[0] != "world" for p in out.get("postings") or []):
+            nontrivial += 1
+        seen.add(h)
+    ctx.cov["locksets"] = {
+        "evaluations": len(inputs),
+        "distinct_with_a_posting_from_a_non_world_source": nontrivial,
+        "aliasing": {"inputs": len(inputs), "shapes": dict(shapes), "of_which_accepted_with_postings": dict(ok_with),
+                     "generator_variants_by_use": dict(tags),
+                     "rate_aliased": round(shapes["aliased"] / max(1, len(inputs)), 4),
+                     "rate_lower_nonsource": round(shapes["lower-nonsource"] / max(1, len(inputs)), 4)},
+        "input_distribution": numlib.distribution(inputs, impl),
+        "rule": "the programs of the numscript generator (type-directed; + one in eight followed by a variant in which an account in source position "
+                "is also the value of a fresh account variable — plain or meta() origin, declared first or last — used as a destination, a save / "
+                "set_account_meta target, or not at all); shapes are measured on the inputs with the values the variables really take "
+                "(aliased = a non-world source account is designated by a second name; lower-nonsource = … by an account variable that is no source and "
+                "precedes the source's own resource)",
+        "sample": next(({"text": i["text"], "vars": i.get("vars"), "impl": proj_locks(impl.get(i["id"]))} for i in inputs
+                        if i.get("alias") and (impl.get(i["id"]) or {}).get("postings")), None),
+    }
+    return len(inputs)
 
 
 def run(ctx):
+    area = None
+    if ctx.replay_file:
+        area = (json.load(open(ctx.replay_file)).get("replay") or {}).get("area")
+    if area == "numscript":     # a replay of the lock-set stream: the script alone
+        ctx.cov["trusted_base"] = TRUSTED + numlib.TRUSTED[1:]
+        ctx.l1()
+        ctx.cov["evaluations"] = locksets(ctx, 1)
+        ctx.cov["rule"] = "replay of one script"
+        return
     run_check(ctx, 'C02', ["floor"], lambda scn, run: concurrent(scn, run) and sum(1 for q in scn["requests"] if q["kind"] in ("create", "revert") and not q.get("dry")) >= 2, 'two requests that move funds overlapped in time')
+    if area == "engine":
+        return
+    ctx.cov["trusted_base"] = TRUSTED + numlib.TRUSTED[1:]
+    ctx.cov["engine_evaluations"] = ctx.cov.get("evaluations", 0)
+    n = locksets(ctx, 1500 if ctx.quick else 40000)
+    ctx.cov["evaluations"] = ctx.cov["engine_evaluations"] + n
+    ctx.cov["rule"] += ("; plus the lock-set stream: " + ctx.cov.get("locksets", {}).get("rule", ""))
+    # how many engine requests name the debited account twice
+    try:
+        reqs = [q for s in read_jsonl(ctx.path("engine.in.jsonl")) for q in s["requests"] if q.get("kind") == "create"]
+        ctx.cov["engine_source_naming"] = dict(collections.Counter(q.get("via") for q in reqs))
+    except Exception:
+        pass
